@@ -72,6 +72,16 @@ def core(rng):
                 if kind == "enum":
                     vs.append({"style": "tuple", "fields": [plainV()]})
                 specs.append({"kind": kind, "variants": vs, "derived": d, "entry": "attr" if k % 4 < 2 else "derive", "generic": False})
+    # twelve fields: member names / tuple indices whose text order differs from the declaration order (f10 < f2)
+    for style in ("tuple", "named"):
+        for kind in ("struct", "enum"):
+            fs = []
+            for i in range(12):
+                f = plainV()
+                f["dom"] = [f"{G.V}({i % 6})"] if i not in (2, 10) else [f"{G.V}(1)", f"{G.V}(4)"]
+                fs.append(f)
+            vs = [{"style": style, "fields": fs}] + ([{"style": "unit", "fields": []}] if kind == "enum" else [])
+            specs.append({"kind": kind, "variants": vs, "derived": ["Hash"], "entry": "attr" if style == "tuple" else "derive", "generic": False})
     return specs
 
 
@@ -154,7 +164,7 @@ def run(rep, tier, rng):
                 G.hash_source = orig
             break
     rep.rule = ("generated structs/enums with Hash derived alone or with its supertrait-closed companions, accepted placements "
-                "of hash/eq/ord ignore/key/by; the feed recorded by a recording Hasher (sequence of write_* calls) for every "
+                "of hash/eq/ord ignore/key/by (field types as in C01, incl. Sh with an inherent hash(); 12-field shapes); the feed recorded by a recording Hasher (sequence of write_* calls) for every "
                 "value of the cartesian value set is compared with the concatenation, in declaration order, of reference "
                 "feeds of each non-ignored field's effective input (hash.by > hash.key > eq.key > ord.key > field); plus the "
                 "equal-inputs <=> identical-feed corollary on all same-variant pairs. evaluations = values hashed.")
